@@ -261,6 +261,71 @@ def run_corpus(k):
             'note': 'concrete enumeration (auxiliary)'}
 
 
+# ----------------------------------------------------------------- typed
+
+TYPED_NUMS = ((3, 5, 2), (8, 4, 3), (1, 1, 0))
+
+
+def typed_script(fname, nums):
+    """The well-sorted script of one instance of C16's typed generator."""
+    from harness import c16
+    from ddsmt.nodes import Node
+    fam, sel = c16.FAMS[fname]
+    inst = c16.Inst()
+    try:
+        fam(inst, *nums, sel)
+    except Exception:
+        return None
+    exprs = [c16._mk(Node, d) for d in inst.decls]
+    for t, s in inst.closed:
+        tn = c16._mk(Node, t)
+        if isinstance(tn.data, str):
+            continue
+        exprs.append(Node('assert', tn) if s == 'Bool'
+                     else Node('assert', Node('=', tn, tn)))
+    return exprs
+
+
+def run_typed(fnames, tier, want=None):
+    import time
+    from ddsmt import nodeio
+    t0 = time.time()
+    stats = {'proposals': 0, 'mutator_errors': []}
+    muts = all_mutators()
+    bad = None
+    nscripts = 0
+    nums = TYPED_NUMS
+    for fname in fnames:
+        for nu in nums:
+            if want is not None and want != (fname, list(nu)):
+                continue
+            exprs = typed_script(fname, nu)
+            if exprs is None:
+                continue
+            # through the real parser, as ddSMT sees it
+            exprs = list(nodeio.parse_smtlib(nodeio.write_smtlib_to_str(exprs)))
+            nscripts += 1
+            r = run_mutators(exprs, muts, stats)
+            if r:
+                bad = {'family': fname, 'nums': list(nu), 'msg': r}
+                break
+        if bad:
+            break
+    errs = sorted(set(stats['mutator_errors']))
+    return {'status': 'VIOLATED' if bad else 'CONFIRMED',
+            'cex': {'family': bad['family'], 'nums': bad['nums']} if bad
+            else None,
+            'exc': {'type': 'Violation', 'msg': bad['msg']} if bad else None,
+            'paths': stats['proposals'], 'paths_ok': stats['proposals'],
+            'samples': [{'families': fnames[:3], 'numerals': list(nums)}],
+            'solver_checks': 0, 'solver_seconds': 0.0,
+            'queries': {'scripts': nscripts, 'mutator_errors': errs[:10],
+                        'n_mutator_errors': len(errs)},
+            'wall_s': round(time.time() - t0, 2),
+            'note': 'concrete enumeration over the scripts of the typed '
+                    'generator of C16 (auxiliary)'}
+
+
 # ---------------------------------------------------------------- strlit
 
 def _literal(chars):
@@ -421,6 +486,14 @@ def partitions(tier):
     for k in range(len(CORPUS)):
         parts.append({'name': f'corpus_{k}', 'kind': 'native',
                       'run': (lambda k=k: run_corpus(k)), 'budget_s': 300})
+    from harness import c16
+    names = list(c16.FAMS)
+    nch = 16
+    for k in range(nch):
+        chunk = names[k::nch]
+        parts.append({'name': f'typed_{k}', 'kind': 'native',
+                      'run': (lambda chunk=chunk: run_typed(chunk, tier)),
+                      'budget_s': 400, 'bounds': {'families': len(chunk)}})
     import itertools
     for n in range(0, bounds(tier)['literal_chars'] + 1):
         pinsets = [()] if n < 2 else list(
@@ -441,6 +514,10 @@ def replay(part, cex):
     try:
         if part.startswith('corpus'):
             r = run_corpus(int(part.split('_')[1]))
+            return r['exc']['msg'] if r['exc'] else None
+        if part.startswith('typed'):
+            r = run_typed([cex['family']], 'thorough',
+                          (cex['family'], list(cex['nums'])))
             return r['exc']['msg'] if r['exc'] else None
         if part.startswith('strlit'):
             n = int(part.split('_')[1])
